@@ -527,7 +527,7 @@ func (p *Program) eventLoop(model Model, cmds chan Cmd) (Model, error) {
 // Run initializes the program and runs its event loops, blocking until it gets
 // terminated by either [Program.Quit], [Program.Kill], or its signal handler.
 // Returns the final model.
-func (p *Program) Run() (Model, error) {
+func (p *Program) Run() (returnModel Model, returnErr error) {
 	p.handlers = channelHandlers{}
 	cmds := make(chan Cmd)
 	p.errs = make(chan error)
@@ -582,7 +582,14 @@ func (p *Program) Run() (Model, error) {
 
 	// Recover from panics.
 	if !p.startupOptions.has(withoutCatchPanics) {
-		defer p.recoverFromPanic()
+		defer func() {
+			if r := recover(); r != nil {
+				p.handlePanic(r)
+				// The program did not end normally: report it.
+				returnModel = p.initialModel
+				returnErr = fmt.Errorf("%w: panic: %v", ErrProgramKilled, r)
+			}
+		}()
 	}
 
 	// If no renderer is set use the standard one.
@@ -770,10 +777,16 @@ func (p *Program) shutdown(kill bool) {
 // the terminal to a usable state.
 func (p *Program) recoverFromPanic() {
 	if r := recover(); r != nil {
-		p.shutdown(true)
-		fmt.Printf("Caught panic:\n\n%s\n\nRestoring terminal...\n\n", r)
-		debug.PrintStack()
+		p.handlePanic(r)
 	}
+}
+
+// handlePanic restores the terminal after a recovered panic and prints the
+// panic value and the stack trace.
+func (p *Program) handlePanic(r interface{}) {
+	p.shutdown(true)
+	fmt.Printf("Caught panic:\n\n%s\n\nRestoring terminal...\n\n", r)
+	debug.PrintStack()
 }
 
 // ReleaseTerminal restores the original terminal state and cancels the input
